@@ -111,13 +111,38 @@ NS_NAMES = {'pdhg': 'pdhg', 'dr': 'douglas_rachford_pd',
 LIN_CLAUSES = ['cg', 'cgn', 'landweber', 'kaczmarz', 'steepest', 'power',
                'stepsize']
 
-# Calibration: iterations needed on the unchanged tree to reach the relative
-# error RHO_MEASURED, maximum over >= 4000 generated problems per row
-# (tools: /tmp measurement script, see the report), then K = 10 x that
-# maximum (rounded up) and rho = 100 x RHO_MEASURED (or weaker).
-# key: (solver, family, cond class) -> (K, rho)
-CALIB = {}
-CALIB_DEFAULT = (40000, 1e-3)
+# Calibration (bounded liveness).  Measured on the unchanged tree with the
+# generator below (forward_backward_pd on the equality-constrained family: on
+# a scratch copy with its x_old aliasing repaired, see known finding C12-K1):
+# number of iterations until ||x_k - x*|| <= 1e-4 ||x_0 - x*||, maximum over
+# the sampled problems of each (solver, family, rate class) row -- the
+# numbers in MEASURED (sample sizes 30..500 per row, 5500 problems in all).
+# Asserted: ||x_K - x*|| <= RHO ||x_0 - x*|| with RHO = 1e-2 (x100) within
+# K = min(10 x measured maximum, K_CAP) iterations; a miss is re-run with 4K
+# before it counts.  K_CAP bounds the cost of a failing case (counts, never
+# wall time); for the rows that hit the cap the margin is 4 K_CAP / measured
+# >= 4.3 on top of the x100 in accuracy.
+MEASURED = {
+    ('accel', 'strong', 'lo'): 117, ('accel', 'strong', 'mid'): 256,
+    ('admm', 'eqcon', 'lo'): 807, ('admm', 'eqcon', 'mid'): 1132,
+    ('admm', 'kl', 'lo'): 104, ('admm', 'kl', 'mid'): 176,
+    ('admm', 'strong', 'lo'): 3087, ('admm', 'strong', 'mid'): 1785,
+    ('dr', 'eqcon', 'lo'): 1561, ('dr', 'eqcon', 'mid'): 4117,
+    ('dr', 'kl', 'lo'): 1397, ('dr', 'kl', 'mid'): 250,
+    ('dr', 'strong', 'lo'): 1136, ('dr', 'strong', 'mid'): 7441,
+    ('fb', 'eqcon', 'lo'): 3295, ('fb', 'eqcon', 'mid'): 8000,
+    ('fb', 'kl', 'lo'): 704, ('fb', 'kl', 'mid'): 7289,
+    ('fb', 'strong', 'lo'): 4486, ('fb', 'strong', 'mid'): 3674,
+    ('pdhg', 'eqcon', 'lo'): 280, ('pdhg', 'eqcon', 'mid'): 1487,
+    ('pdhg', 'kl', 'lo'): 87, ('pdhg', 'kl', 'mid'): 188,
+    ('pdhg', 'strong', 'lo'): 4371, ('pdhg', 'strong', 'mid'): 3846,
+    ('proxgrad', 'strong', 'lo'): 456, ('proxgrad', 'strong', 'mid'): 1271,
+}
+RHO = 1e-2
+K_CAP = 8000
+CALIB = {k: (min(10 * max(v, 100), K_CAP), RHO) for k, v in MEASURED.items()}
+CALIB_DEFAULT = (K_CAP, RHO)
+K_STABILITY = 300
 
 
 # --------------------------------------------------------------------------
@@ -1112,11 +1137,24 @@ def _nonsmooth(desc, strata):
                                                  or len(P.terms) > 0))
 
     # ---- progress + KKT
-    K, rho = CALIB.get((solver, family, cc), CALIB_DEFAULT)
     x0 = P.x0
     err0 = wnorm(x0 - P.xstar, P.dX)
     if err0 == 0:
         return Outcome('trivial', strata=strata)
+    if cc == 'hi':
+        # ill-conditioned problems: first-order methods are arbitrarily
+        # slow; only boundedness is asserted (catches divergence)
+        res = _iterate(U, P, unflat(x0, X), K_STABILITY, 0.0, solver)
+        if res['diverged'] or not res['err'] <= 1e3 * max(err0, P.scale):
+            raise Violation(
+                'C12|stability|{}|family={},{}'.format(name, family,
+                                                       U.region),
+                'iterates leave every bound: ||x_K - x*|| = {:.3g} after '
+                '{} iterations (start {:.3g})'.format(res['err'], res['k'],
+                                                      err0))
+        return Outcome('ok', strata=strata + ['progress:stability-only'],
+                       nontrivial=True)
+    K, rho = CALIB.get((solver, family, cc), CALIB_DEFAULT)
     target = rho * err0
     res = _iterate(U, P, unflat(x0, X), K, target, solver)
     if not res['diverged'] and not res['err'] <= target:
